@@ -31,7 +31,7 @@ impl Prop for C02 {
                 v.push(format!("py:Dual2:{}:float-zero", m));
             }
         }
-        for s in ["route:Number-with-bare-floats", "route:Number-with-wrapped-floats", "gradient2:fast-path", "gradient2:lookup-path", "gradient2:absent-name", "downcast:Dual-from-Dual2", "cross-type:Dual-vs-Dual2", "leaf:nonzero-initial-dual2"] {
+        for s in ["route:Number-with-bare-floats", "route:Number-with-wrapped-floats", "gradient2:fast-path", "gradient2:lookup-path", "gradient2:absent-name", "gradient2:absent-name-first", "downcast:Dual-from-Dual2", "cross-type:Dual-vs-Dual2", "leaf:nonzero-initial-dual2"] {
             v.push(s.to_string());
         }
         v
@@ -40,7 +40,7 @@ impl Prop for C02 {
         tier.pick(150_000, 10_000_000)
     }
     fn rule(&self) -> String {
-        "The C01 tree workload on Dual2 leaves (including leaves with non-zero initial second-order terms). Every node compared with reference AD in value, gradient and full Hessian, and its stored Hessian halves D_ij / D_ji must agree (symmetry); at the root additionally: gradient2 read back for the stored list, permutations, subsets and absent names (both code paths), symmetry, Dual::from(Dual2) bit-identity, and agreement with the same tree evaluated on Dual. distinct_nontrivial = distinct tree shapes with at least one operator.".into()
+        "The C01 tree workload on Dual2 leaves (including leaves with non-zero initial second-order terms). Every node compared with reference AD in value, gradient and full Hessian, and its stored Hessian halves D_ij / D_ji must agree (symmetry); at the root additionally: gradient2 read back for the stored list, permutations, subsets and absent names (both code paths; also an absent name in front of every present one), the gradient1_manifold read-back of the same request agreeing with it entry by entry, symmetry, Dual::from(Dual2) bit-identity, and agreement with the same tree evaluated on Dual. distinct_nontrivial = distinct tree shapes with at least one operator.".into()
     }
     fn assumptions(&self) -> Vec<String> {
         vec![
@@ -174,6 +174,10 @@ impl Prop for C02 {
             requests.push(("gradient2:lookup-path", perm.clone()));
             requests.push(("gradient2:lookup-path", sub));
             requests.push(("gradient2:absent-name", with_absent));
+            // an absent name in front of every present one
+            let mut absent_first = vec!["absent_0".to_string()];
+            absent_first.extend(perm.iter().cloned());
+            requests.push(("gradient2:absent-name-first", absent_first));
         }
         for (cls, req) in requests {
             let m = root2.gradient2(req.clone());
@@ -201,6 +205,32 @@ impl Prop for C02 {
                             bad = true;
                         }
                     }
+                }
+            }
+            // the manifold read-back of the same request tells the same story: element i is the first derivative
+            // w.r.t. name i, and its own gradient over the request is row i of the Hessian handed back above
+            if !bad {
+                let mf = root2.gradient1_manifold(req.clone());
+                ctx.eval(1);
+                ctx.asserted(1);
+                let same = |a: f64, b: f64| a.to_bits() == b.to_bits() || a == b || (a.is_nan() && b.is_nan());
+                let mut mbad = mf.len() != req.len();
+                if !mbad {
+                    for i in 0..req.len() {
+                        let row = mf[i].gradient1(req.clone());
+                        if !same(mf[i].real(), g1[i]) || row.len() != req.len() || (0..req.len()).any(|j| !same(row[j], m[[i, j]])) {
+                            mbad = true;
+                        }
+                    }
+                }
+                if mbad {
+                    ctx.violation(
+                        &format!("C02|manifold-readback-differs-from-gradient2|{}", cls),
+                        json!({"case": describe_case(&e, &specs), "requested": req, "stored": root2.describe(),
+                               "gradient2": m.iter().map(|x| fj(*x)).collect::<Vec<_>>(),
+                               "manifold": mf.iter().map(|d| json!({"real": fj(d.real()), "gradient_over_request": d.gradient1(req.clone()).iter().map(|x| fj(*x)).collect::<Vec<_>>()})).collect::<Vec<_>>()}),
+                    );
+                    return;
                 }
             }
             if bad {
